@@ -5,22 +5,35 @@
 From PV Require Export Run.Judge_Core.
 From PV Require Import Pug.Compile Run.Verdict.
 
-Record case04 := { k_case : caseC; k_h : bytes; k_m : bytes }.
+(* k_opaque: the template holds a node the pug model has no constructor for; it is passed as a STAND-IN, for the
+   domain test only (the model is never run on it):
+     interpolated tag  #{e} + block b      PTag "#{" inline [{| pa_name := "expr"; pa_val := e; pa_esc := false |}] [] b
+     try { A } catch (x) { C } code        PCode [SIf (JId "#try") (SBlock A) (Some (SBlock C))] esc inline
+   such a case is judged by the oracle alone. *)
+Record case04 := { k_case : caseC; k_h : bytes; k_m : bytes; k_opaque : bool }.
 
 Definition cond_ok (c : jexpr) : bool :=
   match c with
   | JId _ | JBool _ | JUn UNot _ (JId _) | JUn UNot _ (JBool _) => true
   | _ => false
   end.
-Definition recv_ok (r : jexpr) : bool :=
-  match r with JId _ | JDot (JId _) _ | JIdx (JId _) (JNum _) => true | _ => false end.
+
+(* a chain of members and literal indices from a variable: ho.k, ha[0], hn.a.b, hl[0].k *)
+Fixpoint path (e : jexpr) : bool :=
+  match e with
+  | JId _ => true
+  | JDot a _ => path a
+  | JIdx a (JNum _) => path a
+  | _ => false
+  end.
+Definition recv_ok (r : jexpr) : bool := path r.
 
 (* string-transparent contexts: shapes that carry a string to the output without looking into it *)
 Fixpoint transp (e : jexpr) : bool :=
   match e with
   | JId _ | JStr _ | JNum _ => true
-  | JDot (JId _) _ => true
-  | JIdx (JId _) (JNum _) => true
+  | JDot a _ => path a
+  | JIdx a (JNum _) => path a
   | JBin BAdd a b | JBin BOr a b | JBin BAnd a b => transp a && transp b
   | JCond c a b => cond_ok c && transp a && transp b
   | JTpl parts => forallb (fun p => match p with inl _ => true | inr x => transp x end) parts
@@ -30,18 +43,116 @@ Fixpoint transp (e : jexpr) : bool :=
   | _ => false
   end.
 
-(* the programs of this property: tags, text, loops and conditionals around escaped buffered code
-   whose expression is transparent *)
-Fixpoint shape04 (n : pnode) : bool :=
-  let all := fix go (l : list pnode) : bool := match l with [] => true | x :: r => shape04 x && go r end in
+(* NAMING RULE of the domain: whatever may hold the hostile string has a name that starts with `h` (top-level data
+   names, loop variables over them, mixin parameters, variables declared from them) or is the mixin variable
+   `attributes`; everything else is harmless: equal in both renders and free of the marker (data_ok below). *)
+Definition hostile_name (x : bytes) : bool :=
+  match x with c :: _ => Ascii.eqb c "h" || beqb x (B "attributes") | [] => false end.
+
+Fixpoint hfree (e : jexpr) : bool :=
+  match e with
+  | JId x => negb (hostile_name x)
+  | JNum _ | JNumF _ | JStr _ | JBool _ | JNull => true
+  | JTpl parts => forallb (fun p => match p with inl _ => true | inr x => hfree x end) parts
+  | JArr es | JSeq es => forallb hfree es
+  | JObj kvs => forallb (fun kv => hfree (snd kv)) kvs
+  | JDot a _ => hfree a
+  | JIdx a b => hfree a && hfree b
+  | JCall f args | JNew f args => hfree f && forallb hfree args
+  | JUn _ _ a => hfree a
+  | JBin _ a b => hfree a && hfree b
+  | JCond c a b => hfree c && hfree a && hfree b
+  | JAssign _ l r => hfree l && hfree r
+  | JVar x i => negb (hostile_name x) && match i with Some a => hfree a | None => true end
+  end.
+
+(* one statement of a code node.  A declaration / plain assignment writes nothing; what it stores must stay under the
+   naming rule.  A printing statement: escaped code prints a transparent expression, unescaped (or unbuffered) code
+   prints harmless things only. *)
+Definition silent_ok (x : bytes) (r : jexpr) : bool := transp r && (hfree r || hostile_name x).
+Definition print_ok (esc : bool) (e : jexpr) : bool :=
+  match e with
+  | JVar x (Some r) | JAssign None (JId x) r => silent_ok x r
+  | JVar _ None => true
+  | _ => if esc then transp e else hfree e
+  end.
+Definition json_parse_of (e : jexpr) : bool :=
+  match e with
+  | JCall (JDot (JId j) name) [JId _] => beqb j (B "JSON") && beqb name (B "parse")
+  | _ => false
+  end.
+Definition stmt04 (opq esc : bool) (s : jstmt) : bool :=
+  match s with
+  | SExpr e => print_ok esc e
+  | SVar ds => forallb (print_ok esc) ds
+  (* stand-in of try { A } catch (x) { C }, escaped: A prints transparent expressions or the result of JSON.parse
+     (which throws on the data of the caught route), C prints transparent expressions (the caught text) *)
+  | SIf (JId t) (SBlock a) (Some (SBlock b)) =>
+    opq && esc && beqb t (B "#try") &&
+    forallb (fun s => match s with SExpr e => print_ok true e || json_parse_of e | _ => false end) a &&
+    forallb (fun s => match s with SExpr e => print_ok true e | _ => false end) b
+  | _ => false
+  end.
+
+(* the programs of this property: tags, text, loops (with key variable), conditionals, mixin definitions and calls
+   (arguments, attributes, blocks) around code nodes of one or several statements: escaped ones print transparent
+   expressions, unescaped / unbuffered ones print harmless expressions; opaque cases: interpolated tags, try/catch *)
+Fixpoint shape04 (opq : bool) (n : pnode) : bool :=
+  let all := fix go (l : list pnode) : bool := match l with [] => true | x :: r => shape04 opq x && go r end in
   match n with
-  | PText _ | PComment => true
+  | PText _ | PComment | PMixinBlock => true
   | PTag _ _ [] [] b | PBlock b => all b
-  | PCode [SExpr e] true _ => transp e
+  | PTag name _ [a] [] b => opq && beqb name (B "#{") && beqb (pa_name a) (B "expr") && hfree (pa_val a) && all b
+  | PCode stmts esc _ => forallb (stmt04 opq esc) stmts
   (* the same expression, unescaped, in a branch that is never taken (the data binds `never` to false) *)
-  | PCond (JId x) [PCode [SExpr e] false _] None => beqb x (B "never") && transp e
-  | PCond c t a => cond_ok c && all t && match a with Some a' => shape04 a' | None => true end
-  | PEach _ _ (JId _) b => all b
+  | PCond (JId x) [PCode [SExpr e] false _] None => (beqb x (B "never") && transp e) || hfree e
+  | PCond c t a => cond_ok c && all t && match a with Some a' => shape04 opq a' | None => true end
+  | PEach v k obj b =>
+    path obj && all b &&
+    (hfree obj || (hostile_name v && match k with Some k' => hostile_name k' | None => true end))
+  | PMixinDef _ params b => forallb hostile_name params && all b
+  | PMixinCall _ args attrs b => forallb transp args && forallb (fun a => transp (pa_val a)) attrs && all b
+  | _ => false
+  end.
+
+(* harmless data: the two renders' data agree outside the h-names, and the marker does not occur there *)
+Fixpoint dval_eqb (a b : dval) : bool :=
+  match a, b with
+  | DNil, DNil => true
+  | DBool x, DBool y => Bool.eqb x y
+  | DInt x, DInt y => Z.eqb x y
+  | DStr x, DStr y => beqb x y
+  | DArr x, DArr y =>
+    (fix go (l1 l2 : list dval) : bool :=
+       match l1, l2 with
+       | [], [] => true
+       | u :: r1, w :: r2 => dval_eqb u w && go r1 r2
+       | _, _ => false
+       end) x y
+  | DMap x, DMap y =>
+    (fix go (l1 l2 : list (bytes * dval)) : bool :=
+       match l1, l2 with
+       | [], [] => true
+       | (k1, u) :: r1, (k2, w) :: r2 => beqb k1 k2 && dval_eqb u w && go r1 r2
+       | _, _ => false
+       end) x y
+  | _, _ => false
+  end.
+Fixpoint dval_has (m : bytes) (d : dval) : bool :=
+  match d with
+  | DStr s => containsb m s
+  | DArr l => existsb (dval_has m) l
+  | DMap l => existsb (fun kv => containsb m (fst kv) || dval_has m (snd kv)) l
+  | _ => false
+  end.
+Definition harmless_part (d : dval) : dval :=
+  match d with
+  | DMap l => DMap (filter (fun kv => negb (hostile_name (fst kv))) l)
+  | _ => d
+  end.
+Definition data_ok (m : bytes) (ds : list dval) : bool :=
+  match ds with
+  | [dh; dm] => dval_eqb (harmless_part dh) (harmless_part dm) && negb (dval_has m (harmless_part dm))
   | _ => false
   end.
 
@@ -59,13 +170,24 @@ Fixpoint nested_tpl (inside : bool) (e : jexpr) : bool :=
   | JDot a _ => nested_tpl inside a
   | JIdx a b => nested_tpl inside a || nested_tpl inside b
   | JUn _ _ a => nested_tpl inside a
+  | JVar _ (Some a) => nested_tpl inside a
+  | JAssign _ a b => nested_tpl inside a || nested_tpl inside b
   | _ => false
   end.
+Definition stmt_nested_tpl (s : jstmt) : bool :=
+  match s with
+  | SExpr e => nested_tpl false e
+  | SVar ds => existsb (nested_tpl false) ds
+  | _ => false
+  end.
+(* a template literal inside a template literal: the engine's JS parser refuses it (the template does not load) *)
 Fixpoint node_nested_tpl (n : pnode) : bool :=
   let any := fix go (l : list pnode) : bool := match l with [] => false | x :: r => node_nested_tpl x || go r end in
   match n with
-  | PCode [SExpr e] _ _ => nested_tpl false e
-  | PTag _ _ _ _ b | PBlock b | PEach _ _ _ b => any b
+  | PCode stmts _ _ => existsb stmt_nested_tpl stmts
+  | PTag _ _ _ _ b | PBlock b | PEach _ _ _ b | PMixinDef _ _ b => any b
+  | PMixinCall _ args attrs b =>
+    existsb (nested_tpl false) args || existsb (fun a => nested_tpl false (pa_val a)) attrs || any b
   | PCond _ t a => any t || match a with Some a' => node_nested_tpl a' | None => false end
   | _ => false
   end.
@@ -77,7 +199,8 @@ Definition never_false (d : dval) : bool :=
   end.
 
 Definition dom04 (c : case04) : bool :=
-  forallb shape04 (c_nodes (k_case c)) && forallb never_false (c_datas (k_case c)) && special_free (k_m c) && no_edge_ws (k_h c) && no_edge_ws (k_m c) &&
+  forallb (shape04 (k_opaque c)) (c_nodes (k_case c)) && forallb never_false (c_datas (k_case c)) &&
+  data_ok (k_m c) (c_datas (k_case c)) && special_free (k_m c) && no_edge_ws (k_h c) && no_edge_ws (k_m c) &&
   negb (containsb (k_m c) (o_code (c_prod (k_case c)))).
 
 Definition oracle04 (c : case04) : bool :=
@@ -99,6 +222,10 @@ Definition agree04 (c : case04) : nat :=
             match model_program false k with Some _ => 1 | None => 3 end
   end.
 
+(* a generated case that is not in the domain would never be able to show a violation: it is an alarm (drift) of its
+   own, so that the generator and shape04 cannot silently part ways *)
 Definition judge (c : case04) : nat :=
-  if dom04 c && negb (oracle04 c) then v_violation
+  if negb (dom04 c) then v_drift
+  else if negb (oracle04 c) then v_violation
+  else if k_opaque c then v_unmodelled
   else match agree04 c with 0 => v_agree | 3 => v_unmodelled | _ => v_drift end.
